@@ -304,6 +304,13 @@ func (in *c12Inst) Apply(op vx.Op) (got, want string) {
 		in.fresh = true
 		return c12Err(err)
 	case "TopN":
+		if len(op.Args) > 4 && op.Args[4] == 1 {
+			// macro-op: explicit recalculation immediately followed by the read
+			if err := in.n.api.RecalculateCaches(ctx); err != nil {
+				return c12Err(err)
+			}
+			in.fresh = true
+		}
 		return in.topN(int(op.Args[0]), op.Args[1], int(op.Args[2]), op.Args[3])
 	}
 	panic("unknown op " + op.Name)
@@ -568,6 +575,9 @@ func c12Alphabet(thorough bool) []vx.Op {
 		vx.O("TopN", 0, 0b1111, 2, -1), // ids, threshold=2
 		vx.O("TopN", 2, 0, 0, 1),       // TopN(f, Row(f=1), n=2)
 		vx.O("TopN", 0, 0b1111, 0, 2),  // TopN(f, Row(f=2), ids=[..])
+		vx.O("TopN", 0, 0, 0, -1, 1),   // Recalculate; TopN(f)
+		vx.O("TopN", 2, 0, 0, -1, 1),   // Recalculate; TopN(f, n=2)
+		vx.O("TopN", 2, 0, 0, 1, 1),    // Recalculate; TopN(f, Row(f=1), n=2)
 	)
 	if thorough {
 		a = append(a, vx.O("TopN", 5, 0, 0, -1), vx.O("TopN", 2, 0, 2, -1))
@@ -599,7 +609,7 @@ func c12Alphabet(thorough bool) []vx.Op {
 // c12CoreAlphabet: a sharper sub-alphabet for one more level of depth.
 func c12CoreAlphabet() []vx.Op {
 	return []vx.Op{
-		vx.O("TopN", 0, 0, 0, -1), vx.O("TopN", 0, 0b1111, 0, -1), vx.O("TopN", 0, 0b1111, 0, 2),
+		vx.O("TopN", 0, 0, 0, -1, 1), vx.O("TopN", 0, 0b1111, 0, -1), vx.O("TopN", 0, 0b1111, 0, 2),
 		vx.O("Recalculate"),
 		vx.O("Set", 1, 0), vx.O("Set", 2, 0), vx.O("Set", 3, 0), vx.O("Set", 4, 0),
 		vx.O("Clear", 1, 0), vx.O("Clear", 2, 0),
